@@ -269,7 +269,7 @@ func c14fiOp(g *G) string {
 func c14gen(kind string) func(g *G) {
 	return func(g *G) {
 		seed := c13genSeed()
-		c13pairs(g, seed, g.Scale(3, 4), g.Scale(500, 6000), func(left, right []string) {
+		c13pairs(g, seed, g.Scale(3, 4), g.Scale(1200, 6000), func(left, right []string) {
 			ops := c13case(left, right)
 			if g.Thorough() && g.Chance(1, 8) {
 				ops = append(ops, "oracle patch")
